@@ -204,6 +204,7 @@ def run(ctx):
                 ctx.check(known, 'D2', 'the entry removed in %s is known to be in the table' % fi.name,
                           key=('D2', fi.qual, 'remove-unknown'), site=ctx.site(fi, x))
 
+    common.parse_errors_propagate(ctx, 'D2')
     # ---------------------------------------------------------------- D3
     ts = common.typestate(ctx, esc)
     S = ts.S
